@@ -321,10 +321,7 @@ func (s *session) SetID(newID string) {
 	if oldID == newID {
 		return
 	}
-	s.socket.SetID(newID)
-	hub := s.peer.sessHub
-	hub.set(s)
-	hub.delete(oldID)
+	s.peer.sessHub.changeID(s, newID)
 	Tracef("session changes id: %s -> %s", oldID, newID)
 }
 
@@ -776,7 +773,7 @@ func (s *session) closeLocked() error {
 		return nil
 	} // readDisconnected is being called
 	verifGate("close.cas", s)
-	s.peer.sessHub.delete(s.ID())
+	s.peer.sessHub.deleteSession(s)
 	s.notifyClosed()
 	s.graceCtxWait()
 	verifGate("close.ctxwaited", s)
@@ -801,7 +798,7 @@ func (s *session) readDisconnected(oldConn net.Conn, err error) {
 	}
 	verifGate("disc.stored", s)
 
-	s.peer.sessHub.delete(s.ID())
+	s.peer.sessHub.deleteSession(s)
 
 	var reason string
 	if err != nil && err != socket.ErrProactivelyCloseSocket {
@@ -954,6 +951,8 @@ type SessionHub struct {
 	// key: session id (ip, name and so on)
 	// value: *session
 	sessions goutil.Map
+	// mu makes set, changeID and deleteSession atomic with respect to each other.
+	mu sync.Mutex
 }
 
 // newSessionHub creates a new sessions hub.
@@ -966,14 +965,54 @@ func newSessionHub() *SessionHub {
 
 // set sets a *session.
 func (sh *SessionHub) set(sess *session) {
+	sh.mu.Lock()
+	oldSess := sh.storeLocked(sess)
+	sh.mu.Unlock()
+	if oldSess != nil {
+		oldSess.Close()
+	}
+}
+
+// storeLocked stores sess under its current id and returns the other session
+// it displaced, if any.
+func (sh *SessionHub) storeLocked(sess *session) (displaced *session) {
 	_sess, loaded := sh.sessions.LoadOrStore(sess.ID(), sess)
 	if !loaded {
-		return
+		return nil
 	}
 	sh.sessions.Store(sess.ID(), sess)
 	if oldSess := _sess.(*session); sess != oldSess {
-		oldSess.Close()
+		return oldSess
 	}
+	return nil
+}
+
+// changeID changes the id of sess and, if sess is in the hub, moves its entry
+// to the new id (closing the session that held the new id before).
+func (sh *SessionHub) changeID(sess *session, newID string) {
+	sh.mu.Lock()
+	oldID := sess.ID()
+	sess.socket.SetID(newID)
+	var displaced *session
+	if cur, ok := sh.sessions.Load(oldID); ok && cur.(*session) == sess {
+		displaced = sh.storeLocked(sess)
+		sh.sessions.Delete(oldID)
+	}
+	sh.mu.Unlock()
+	if displaced != nil {
+		displaced.Close()
+	}
+}
+
+// deleteSession removes sess from the hub. The entry under the id of sess is
+// deleted only if it is sess itself: a newer session that took over the id stays.
+func (sh *SessionHub) deleteSession(sess *session) {
+	sh.mu.Lock()
+	id := sess.ID()
+	if cur, ok := sh.sessions.Load(id); ok && cur.(*session) == sess {
+		sh.sessions.Delete(id)
+	}
+	sh.mu.Unlock()
 }
 
 // get gets *session by id.
@@ -1008,11 +1047,6 @@ func (sh *SessionHub) random() (*session, bool) {
 // NOTE: the count implemented using sync.Map may be inaccurate.
 func (sh *SessionHub) len() int {
 	return sh.sessions.Len()
-}
-
-// delete deletes the *session for a id.
-func (sh *SessionHub) delete(id string) {
-	sh.sessions.Delete(id)
 }
 
 const (
